@@ -185,6 +185,8 @@ def run(chk):
     chk.rule('R4', 'summarising observers (all/any/none/count/to_ulong/to_string) agree with a reference bit vector', 12)
     from . import c12_bits
     c12_bits.run(chk, prog)
+    chk.rule('R5', 'mutating operators: size and every bit of the result agree with the reference bit vector', 20)
+    c12_bits.mutators(chk, prog)
     if eng.unsupported:
         chk.notes.append('constructs evaluated as opaque: %s' % sorted(set(eng.unsupported))[:10])
     if eng.notes:
